@@ -96,28 +96,25 @@ Qed.
 Lemma has_sep_cons a r : has_sep (a :: r) = false -> has_sep r = false.
 Proof. cbn [has_sep]. destruct r as [|b r']; [reflexivity|]. intros H. apply orb_false_iff in H as [_ H]. exact H. Qed.
 
-Lemma split_hdr_none v : has_sep v = false -> split_hdr v = None.
-Proof.
-  induction v as [|c r IH]; intros H; [reflexivity|].
-  cbn [split_hdr]. rewrite (IH (has_sep_cons _ _ H)).
-  destruct r as [|a [|b v']]; try reflexivity.
-  assert (H2 := has_sep_cons _ _ H). cbn [has_sep] in H2. apply orb_false_iff in H2 as [H2 _].
-  rewrite H2. reflexivity.
-Qed.
-
-Lemma split_hdr_ok k v : k <> [] -> v <> [] -> has_sep v = false ->
+Lemma split_hdr_ok k v : k <> [] -> v <> [] -> has_sep k = false ->
   split_hdr (k ++ 58 :: 32 :: v) = Some (k, v).
 Proof.
-  intros Hk Hv Hs. induction k as [|c k IH]; [congruence|].
+  intros Hk Hv. induction k as [|c k IH]; [congruence|]. intros Hs.
   destruct k as [|c' k'].
-  - cbn [app]. cbn [split_hdr].
-    assert (E1 : split_hdr v = None) by (apply split_hdr_none, Hs).
-    assert (E2 : split_hdr (32 :: v) = None).
-    { cbn [split_hdr]. rewrite E1. destruct v as [|a [|b v']]; try reflexivity.
-      cbn [has_sep] in Hs. apply orb_false_iff in Hs as [Hs _]. rewrite Hs. reflexivity. }
-    cbn [split_hdr] in E2. rewrite E1 in *. rewrite E2.
-    destruct v as [|b v']; [congruence|]. reflexivity.
-  - cbn [app] in *. cbn [split_hdr]. cbn [split_hdr] in IH. rewrite IH by discriminate. reflexivity.
+  - cbn [app split_hdr]. change (58 =? 58) with true. change (32 =? 32) with true.
+    destruct v; [congruence|reflexivity].
+  - specialize (IH ltac:(discriminate) (has_sep_cons _ _ Hs)).
+    change ((c :: c' :: k') ++ 58 :: 32 :: v) with (c :: ((c' :: k') ++ 58 :: 32 :: v)).
+    remember ((c' :: k') ++ 58 :: 32 :: v) as r eqn:Er.
+    cbn [split_hdr]. rewrite IH.
+    destruct r as [|a [|b w]]; [discriminate| |].
+    + destruct k'; cbn in Er; discriminate.
+    + assert (C : (a =? 58) && (b =? 32) = false).
+      { cbn [has_sep] in Hs. apply orb_false_iff in Hs as [_ Hs].
+        destruct k' as [|d k''].
+        - cbn in Er. injection Er as -> -> _. destruct (c' =? 58); reflexivity.
+        - cbn in Er. injection Er as -> -> _. cbn [has_sep] in Hs. apply orb_false_iff in Hs as [Hs _]. exact Hs. }
+      rewrite C. reflexivity.
 Qed.
 
 Lemma has_sep_snoc13 v : has_sep v = false -> has_sep (v ++ [13]) = false.
@@ -132,13 +129,13 @@ Lemma has_sep_eol v eol : is_eol eol -> has_sep v = false -> has_sep (v ++ eol) 
 Proof. intros [->| ->] H; [rewrite app_nil_r; exact H|apply has_sep_snoc13, H]. Qed.
 
 Lemma wf_header_parts kv : wf_header kv = true ->
-  fst kv <> [] /\ snd kv <> [] /\ forallb plain_char (fst kv) = true /\ forallb plain_char (snd kv) = true /\ has_sep (snd kv) = false.
+  fst kv <> [] /\ snd kv <> [] /\ forallb plain_char (fst kv) = true /\ forallb plain_char (snd kv) = true /\ has_sep (fst kv) = false.
 Proof.
   unfold wf_header. intros H. repeat (apply andb_true_iff in H as [H ?]).
   repeat split; try assumption.
   - destruct (fst kv); [discriminate|discriminate].
   - destruct (snd kv); [discriminate|discriminate].
-  - destruct (has_sep (snd kv)); [discriminate|reflexivity].
+  - destruct (has_sep (fst kv)); [discriminate|reflexivity].
 Qed.
 
 Lemma hdr_line_eol kv eol : hdr_line kv ++ eol = fst kv ++ 58 :: 32 :: (snd kv ++ eol).
@@ -152,13 +149,13 @@ Proof.
     destruct kv as [k v]; cbn [fst snd] in *. destruct v; [congruence|reflexivity].
   - assumption.
   - intros E. apply app_eq_nil in E as [E _]. congruence.
-  - apply has_sep_eol; assumption.
+  - assumption.
 Qed.
 
 Lemma is_header_line_ok kv eol : is_eol eol -> wf_header kv = true -> is_header_line (hdr_line kv ++ eol) = true.
 Proof.
   intros He H. destruct (wf_header_parts kv H) as (Hk & Hv & Pk & Pv & Hs).
-  unfold is_header_line. rewrite hdr_line_eol, split_hdr_ok; [reflexivity|assumption| |apply has_sep_eol; assumption].
+  unfold is_header_line. rewrite hdr_line_eol, split_hdr_ok; [reflexivity|assumption| |assumption].
   intros E. apply app_eq_nil in E as [E _]. congruence.
 Qed.
 
